@@ -663,7 +663,11 @@ impl Aml for AddressSpace<u16> {
         sink.word(self.min); /* Min */
         sink.word(self.max); /* Max */
         sink.word(self.translation.unwrap_or(0));
-        let len = self.max - self.min + 1;
+        let len = self
+            .max
+            .checked_sub(self.min)
+            .and_then(|l| l.checked_add(1))
+            .expect("address range size must be representable");
         sink.word(len); /* Length */
     }
 }
@@ -680,7 +684,11 @@ impl Aml for AddressSpace<u32> {
         sink.dword(self.min); /* Min */
         sink.dword(self.max); /* Max */
         sink.dword(self.translation.unwrap_or(0)); /* Translation */
-        let len = self.max - self.min + 1;
+        let len = self
+            .max
+            .checked_sub(self.min)
+            .and_then(|l| l.checked_add(1))
+            .expect("address range size must be representable");
         sink.dword(len); /* Length */
     }
 }
@@ -697,7 +705,11 @@ impl Aml for AddressSpace<u64> {
         sink.qword(self.min); /* Min */
         sink.qword(self.max); /* Max */
         sink.qword(self.translation.unwrap_or(0)); /* Translation */
-        let len = self.max - self.min + 1;
+        let len = self
+            .max
+            .checked_sub(self.min)
+            .and_then(|l| l.checked_add(1))
+            .expect("address range size must be representable");
         sink.qword(len); /* Length */
     }
 }
